@@ -515,6 +515,28 @@ def namespace_check(step):
                 continue
             if got is not obj:
                 problems.append(["name-identity", f"{pkg}.{name}", f"is not {defining}.{name}"])
+    # (iv) whatever else a generated package declares public (its __all__): the same object in its home subpackage
+    # and in the top-level package
+    for gp in step.get("gen_packages", []):
+        try:
+            gm = importlib.import_module(gp)
+        except BaseException:  # noqa  (reported above where it matters)
+            continue
+        home = gp.replace("eolib.protocol._generated", "eolib.protocol")
+        for name in list(getattr(gm, "__all__", []) or []):
+            try:
+                obj = getattr(gm, name)
+            except AttributeError:
+                problems.append(["name-missing-in-defining-module", f"{gp}.{name}", "listed in __all__ but not defined"])
+                continue
+            for pkg in (home, "eolib"):
+                try:
+                    got = getattr(importlib.import_module(pkg), name)
+                except BaseException as e:  # noqa
+                    problems.append(["name-not-exported", f"{pkg}.{name}", f"{type(e).__name__}"])
+                    continue
+                if got is not obj:
+                    problems.append(["name-identity", f"{pkg}.{name}", f"is not {gp}.{name}"])
     return out
 
 
